@@ -9,6 +9,7 @@ from common import pmap, scratch, rng_for, save_replay, write_file
 
 LEVEL = "exploration"
 FATAL_APES = [0xF4, 0xF5, 0xF6, 0xF7, 0xF8, 0xF9, 0xFA, 0xFB, 0xFC]
+WARNING_APES = [0xF2, 0xFD, 0xFE]      # APE_STRIP_START, APE_PE_DATA_MISSING, APE_OOT_DATA_MISSING
 LANES_RE = re.compile(r"has errors in lane \[([0-9, ]*)\]")
 
 
@@ -133,9 +134,13 @@ def encode_frame(rng, specs, nasty, many=False):
         for k, c in enumerate(chips):
             if sp.fatal_at == k:
                 data.append(rng.choice(FATAL_APES))
+            elif rng.random() < 0.08:
+                data.append(rng.choice(WARNING_APES))     # protocol extensions with lane status WARNING: logged, never an error, the lane stays in the frame
             data += c.encode() + bytes(rng.choice([0, 0, 1, 4]))
         if sp.fatal_at is not None and sp.fatal_at >= len(chips):
             data.append(rng.choice(FATAL_APES))
+        elif data and rng.random() < 0.05:
+            data.append(rng.choice(WARNING_APES))
         if not data:
             data = bytearray(rng.choice([1, 5, 9]))   # a lane word holding only padding
         per_lane[sp.ident] = alpide.to_data_words(sp.ident, bytes(data))
